@@ -165,6 +165,15 @@ def numbered (lines : List Str) : Except Err (List Rec) := run St.init lines
 def plainStmt (s : Str) : Bool :=
   !s.isEmpty && !isOpener s && !startsWith s ['#'] && !startsWith (firstPart s) q3 && !wantsMore (firstPart s)
 
+/-- the pending comment after a block of lines that are blank or `# …` comment lines: consecutive comment lines are gathered with `"\n"`,
+    blank lines in between change nothing -/
+def commentOf (cur : Option Str) : List Str → Option Str
+  | [] => cur
+  | l :: ls =>
+    match strip l with
+    | '#' :: c => commentOf (addComment cur (strip c)) ls
+    | _ => commentOf cur ls
+
 /-! ### from the file content -/
 
 /-- `content.split("\n")` -/
